@@ -183,7 +183,7 @@ def generator(
                     best_difference_so_far = diff
                 best_partition_so_far =  current_heap.top()
                 yield best_partition_so_far
-                if diff == 0:
+                if diff == 0 and isBest:  # with a given bound, all partitions under the bound are wanted
                     logger.info("Perfect partition is found!!!")
                     return
             continue
